@@ -20,6 +20,7 @@ from __future__ import annotations
 import numpy as np
 
 from pv import core
+from pv.gen import c09_axes as AX
 from pv.ref import c09_oracle as O
 
 RT_TOL = 1e-12
@@ -28,35 +29,62 @@ INDEP = ('radius', 'area', 'data_radius')
 GAUSS = ('gaussian_fit', 'gaussian_profile', 'gaussian_fwhm')
 
 
-def gen_config(rng, kind):
+def gen_config(case, kind):
+    rng = case.rng
     import astropy.units as u
-    n = int(rng.integers(31, 56))
-    yy, xx = np.mgrid[0:n, 0:n]
-    xc = n / 2 + rng.uniform(-4, 4)
-    yc = n / 2 + rng.uniform(-4, 4)
+    ny, nx = AX.image_shape(case, 31, 56, 'shape_profile')
+    n = min(ny, nx)
+    mag = AX.scale(case, 'magnitude_profile')
+    lay_d, lay_m = AX.layout(case, 'layout_profile_data'), AX.layout(case, 'layout_profile_mask')
+    cen_form = int(rng.integers(0, 5))
+    case.note('axis:xycen_form:' + ['tuple', 'list', 'ndarray', 'np_scalars', 'int_if_possible'][cen_form])
+    rad_form = AX.seq_form(case, 'radii_form')
+    degenerate = None
+    r = rng.random()
+    if r < 0.04:
+        degenerate = 'zero_data'
+    elif r < 0.08:
+        degenerate = 'all_masked'
+    elif r < 0.12:
+        degenerate = 'off_image'
+    if degenerate:
+        case.note('axis:degenerate_profile:' + degenerate)
+    yy, xx = np.mgrid[0:ny, 0:nx]
+    xc = nx / 2 + rng.uniform(-4, 4)
+    yc = ny / 2 + rng.uniform(-4, 4)
+    if cen_form == 4:
+        xc, yc = float(round(xc)), float(round(yc))
+    if degenerate == 'off_image':
+        xc = float(nx + rng.uniform(30, 60))
     if rng.random() < 0.15:          # source near the edge: apertures overhang the image
         xc = rng.uniform(1, 6)
     sig = rng.uniform(1.5, 5.0)
     amp = rng.uniform(20, 500)
-    data = amp * np.exp(-((xx - xc) ** 2 + (yy - yc) ** 2) / (2 * sig ** 2)) + rng.normal(0, 1.0, (n, n))
+    data = amp * np.exp(-((xx - xc) ** 2 + (yy - yc) ** 2) / (2 * sig ** 2)) + rng.normal(0, 1.0, (ny, nx))
+    if degenerate == 'zero_data':
+        data = np.zeros((ny, nx))
     flags = {}
     error = mask = None
     if rng.random() < 0.6:
-        error = np.full((n, n), 1.0) + rng.uniform(0, 0.5, (n, n))
+        error = np.full((ny, nx), 1.0) + rng.uniform(0, 0.5, (ny, nx))
         flags['error'] = True
     if rng.random() < 0.4:
-        mask = rng.random((n, n)) < rng.choice([0.02, 0.15])
+        mask = rng.random((ny, nx)) < rng.choice([0.02, 0.15])
         if rng.random() < 0.3:       # a fully masked ring -> area 0 -> NaN profile bin
             rr = np.hypot(xx - xc, yy - yc)
             mask |= (rr > 5.5) & (rr < 9.5)
             flags['masked_ring'] = True
         flags['mask'] = True
     if rng.random() < 0.2:
-        data[rng.random((n, n)) < 0.01] = np.nan
+        data[rng.random((ny, nx)) < 0.01] = np.nan
         flags['nan'] = True
-    unit = u.Jy if rng.random() < 0.25 else None
+    if degenerate == 'all_masked':
+        mask = np.ones((ny, nx), bool)
+    unit = [u.Jy, u.mJy][int(rng.integers(0, 2))] if rng.random() < 0.25 else None
+    data = data * mag
+    error = None if error is None else error * mag
     method = str(rng.choice(['exact', 'exact', 'center', 'subpixel']))
-    rmax = float(rng.uniform(6, min(18, n / 2)))
+    rmax = float(rng.uniform(6, max(7.0, min(18, n / 2))))     # may overhang a narrow image
     nr = int(rng.integers(4, 14))
     if kind == 'RadialProfile':
         r0 = 0.0 if rng.random() < 0.6 else float(rng.uniform(0.3, 2))
@@ -67,20 +95,29 @@ def gen_config(rng, kind):
     else:
         radii = r0 + (rmax - r0) * np.sort(np.concatenate([[0.0, 1.0], rng.uniform(0.02, 0.98, nr - 2)]))
         radii = np.unique(radii)
+    def cen():
+        if cen_form == 0:
+            return (float(xc), float(yc))
+        if cen_form == 1:
+            return [float(xc), float(yc)]
+        if cen_form == 2:
+            return np.array([xc, yc])
+        if cen_form == 3:
+            return (np.float64(xc), np.float64(yc))
+        return (int(xc), int(yc))
     xycen = (float(xc), float(yc))
 
     def build():
         from photutils.profiles import CurveOfGrowth, RadialProfile
         cls = RadialProfile if kind == 'RadialProfile' else CurveOfGrowth
-        d = data.copy()
-        e = None if error is None else error.copy()
+        d = lay_d(data)
+        e = lay_d(error)
         if unit is not None:
             d = d * unit
             e = None if e is None else e * unit
-        return cls(d, xycen, radii.copy(), error=e, mask=None if mask is None else mask.copy(),
-                   method=method, subpixels=3)
+        return cls(d, cen(), rad_form(radii), error=e, mask=lay_m(mask), method=method, subpixels=3)
 
-    params = dict(kind=kind, n=n, xycen=[round(xc, 3), round(yc, 3)], nradii=len(radii), r0=round(r0, 3),
+    params = dict(kind=kind, shape=[ny, nx], magnitude=mag, degenerate=degenerate, xycen=[round(xc, 3), round(yc, 3)], nradii=len(radii), r0=round(r0, 3),
                   rmax=round(rmax, 3), method=method, unit=str(unit), **flags)
     digest = core.arr_digest(data, error, mask, radii, np.array(xycen))
     return build, params, digest, radii
@@ -121,7 +158,7 @@ def _cmp(case, o_live, o_twin, what, mech, rtol=0.0, devname=None):
 
 def run(case, kind):
     rng = case.rng
-    build, params, digest, radii = gen_config(rng, kind)
+    build, params, digest, radii = gen_config(case, kind)
     reads = ['radius', 'profile', 'profile_error', 'area', 'normalization_value', 'apertures']
     if kind == 'RadialProfile':
         reads += ['data_radius', 'data_profile', 'data_profile', 'gaussian_fit', 'gaussian_profile',
@@ -182,7 +219,7 @@ def run(case, kind):
             if op == 'normalize':
                 with np.errstate(all='ignore'):
                     norm = float(np.nanmax(cur) if step[1] == 'max' else np.nansum(cur))
-                if norm != 0:
+                if norm != 0 and np.isfinite(norm):     # the library leaves the profile alone otherwise (warning)
                     N = N * norm
             else:
                 N = 1.0
